@@ -341,9 +341,13 @@ impl TypeChecker {
         };
 
         // Small edge case: the primitives are already in the typechecker, so we
-        // skip them, but we should override the documentation.
-        if let Some(other) =
-            self.type_info.scope_graph.resolve_name(scope, &ident, true)
+        // skip them, but we should override the documentation. This only
+        // concerns the scope that the primitives are declared in: a type in
+        // a module can have the name of a primitive.
+        if let Some(other) = self
+            .type_info
+            .scope_graph
+            .resolve_name(scope, &ident, false)
             && let DeclarationKind::Type(TypeOrStub::Type(
                 TypeDefinition::Primitive(_) | TypeDefinition::List(_),
             )) = other.kind
